@@ -1,9 +1,161 @@
 import LyModel.Valid.Hist
 import LyModel.Valid.SpecDefaults
-/-! C07 — property theorems (under construction) -/
+import LyModel.Valid.LemmasImplicit
+import LyModel.Valid.LemmasLoop
+/-!
+# C07 — validation is an idempotent normalisation whose reported changes are exact
+
+Property theorems about the model `LyModel.Valid` of `src/validation.c`, `src/tree_data_new.c` (`lyd_new_implicit`),
+`src/tree_data_common.c` (`lyd_is_default`, `lyd_np_cont_dflt_*`) and `src/out.c` (`lyd_node_should_print`); correspondence
+with the C: `tools/checks/c07.py`.  Helper lemmas live in `LyModel/Valid/Lemmas*.lean`.
+-/
 namespace LyModel.Props.C07
 open LyModel LyModel.Tree LyModel.Valid
+open LyModel.Generated (LYD_PRINT_KEEPEMPTYCONT LYD_PRINT_WD_EXPLICIT LYD_PRINT_WD_TRIM LYD_PRINT_WD_ALL LYD_PRINT_WD_ALL_TAG
+  LYD_PRINT_WD_IMPL_TAG)
 
-theorem placeholder : True := trivial
+/-! ## what `lyd_new_implicit` creates -/
+
+/-- **`dflt_flag_sound`**: every change `lyd_new_implicit` makes on a sibling level — through choices, default cases and nested
+cases, in the defective and in the repaired variant of the code — is the creation of ONE node of a schema node `k` below the
+level, flagged `LYD_DEFAULT` only, without children, which is a non-presence container or a terminal node whose value is a
+`default` of `k`.  (Nothing is deleted or changed here; the flag is never set on anything else by validation.) -/
+theorem dflt_flag_sound (X : SchemaX) (o : VOpts) (cx : Cx) (ks : List STree) (sibs : List DNode) :
+    ∀ e ∈ (implL X o cx ks sibs).2.evs, ∃ k, BelowL k ks ∧
+      e.op = .create ∧ e.node.sid = k.sid ∧ e.node.flags = { dflt := true } ∧ e.node.kids = [] ∧
+      (e.node.isTerm = true → e.node.val ∈ k.info.dflts) ∧ (e.node.isTerm = false → k.isNpCont = true) := by
+  intro e he
+  obtain ⟨k, hk, h1, _, h3, h4, h5, h6, h7⟩ := implL_below X o cx ks sibs e he
+  exact ⟨k, hk, h1, h3, h4, h5, h6, h7⟩
+
+/-- non-vacuity: `container c { leaf d { default "x"; } leaf-list ll { default "a"; default "b"; } container n { } }` on the empty
+container content creates three default terminal nodes and the default container -/
+example :
+    let S : Schema := { modName := "m", nodes := [
+      { depth := 0, kind := .leaf, name := "d", dflts := [[120]] },
+      { depth := 0, kind := .leaflist, name := "ll", dflts := [[97], [98]] },
+      { depth := 0, kind := .container, name := "n" }] }
+    let X := SchemaX.ofSchema S
+    ((implL X {} {} X.top []).2.evs.map (·.node.sid), (implL X {} {} X.top []).1.length) = ([0, 1, 1, 2], 4) := by decide
+
+/-! ## `lyd_is_default` against RFC 6243 / RFC 7950 §7.7.2 -/
+
+/-- RFC view: a leaf instance is default data iff its value is the schema default; a leaf-list is at its default iff the list of
+its instances is the list of its default values (RFC 7950 §7.7.2: the defaults are used as a whole when no instance exists) -/
+def rfcDefault (S : Schema) (sibs : List DNode) (n : DNode) : Bool :=
+  n.isTerm &&
+  match S.get? n.sid with
+  | some sn =>
+    if sn.kind == .leaf then sn.dflts.head? == some n.val
+    else if sn.kind == .leaflist then !sn.dflts.isEmpty && (instsOf sibs n.sid).map (·.val) == sn.dflts
+    else false
+  | none => false
+
+/-- schema of the witness: `leaf-list ll { type string; default "a"; default "b"; }` -/
+def S17 : Schema := { modName := "f17", nodes := [{ depth := 0, kind := .leaflist, name := "ll", dflts := [[97], [98]] }] }
+
+/-- **full strength, false (finding F17)**: `lyd_is_default` calls a leaf-list instance default as soon as it equals ANY ONE of the
+defaults, also when the instances as a whole are not the default list — here the single explicit instance `a` of a leaf-list whose
+defaults are `a b` (trim mode drops it; parsing the result back yields `a b`). -/
+theorem is_default_iff_rfc6243_fails :
+    ¬ ∀ (S : Schema) (sibs : List DNode) (n : DNode), n ∈ sibs → (isDefault S n = true ↔ rfcDefault S sibs n = true) := by
+  intro h
+  have := h S17 [.term 0 {} [] [97]] (.term 0 {} [] [97]) (by simp)
+  revert this
+  decide
+
+/-- **the true part**: for leaves the two coincide; for leaf-lists `lyd_is_default` holds on every instance whenever the instances
+are the default list (for every schema, sibling list and node) -/
+theorem is_default_iff_rfc6243_partial (S : Schema) (sibs : List DNode) (n : DNode) (hn : n ∈ sibs) :
+    (S.isKind n.sid .leaf = true → (isDefault S n = true ↔ rfcDefault S sibs n = true)) ∧
+    (rfcDefault S sibs n = true → isDefault S n = true) := by
+  unfold isDefault rfcDefault Schema.isKind Schema.kind?
+  cases hg : S.get? n.sid with
+  | none => simp
+  | some sn =>
+    simp only [Option.map_some, Bool.and_eq_true]
+    constructor
+    · intro hk
+      have : (sn.kind == SKind.leaf) = true := by simpa using hk
+      simp [this]
+    · rintro ⟨ht, h⟩
+      refine ⟨ht, ?_⟩
+      by_cases hl : (sn.kind == SKind.leaf) = true
+      · simpa [hl] using h
+      · simp only [hl, Bool.false_eq_true, if_false] at h ⊢
+        by_cases hll : (sn.kind == SKind.leaflist) = true
+        · simp only [hll, if_true, Bool.and_eq_true, Bool.not_eq_eq_eq_not, Bool.not_true, beq_iff_eq] at h ⊢
+          rw [← h.2]
+          apply List.elem_eq_true_of_mem
+          exact List.mem_map.2 ⟨n, List.mem_filter.2 ⟨hn, by simp⟩, rfl⟩
+        · simp [hll] at h
+
+/-- non-vacuity: a leaf with default `x` -/
+example : isDefault { modName := "m", nodes := [{ depth := 0, kind := .leaf, name := "f", dflts := [[120]] }] } (.term 0 {} [] [120]) = true := by
+  decide
+
+/-! ## with-defaults modes: `lyd_node_should_print` selects the RFC 6243 node sets -/
+
+/-- the basic modes of RFC 6243 §3 and the tagged variant of §3.4; libyang's fifth mode tags only implicit nodes -/
+inductive WdMode where
+  | explicit | trim | reportAll | reportAllTagged | implicitTagged
+  deriving Repr, DecidableEq
+
+/-- the `LYD_PRINT_WD_*` value of a mode (from `LyModel.Generated.Consts`) -/
+def WdMode.bits : WdMode → Nat
+  | .explicit => LYD_PRINT_WD_EXPLICIT | .trim => LYD_PRINT_WD_TRIM | .reportAll => LYD_PRINT_WD_ALL
+  | .reportAllTagged => LYD_PRINT_WD_ALL_TAG | .implicitTagged => LYD_PRINT_WD_IMPL_TAG
+
+/-- RFC 6243: is a terminal node reported?
+* report-all (§3.1), also tagged: every node;
+* trim (§3.2): not the nodes that contain the schema default value (set by the client or not);
+* explicit (§3.3): not the nodes the server set to the default (flagged default), except non-configuration nodes, which are reported. -/
+def rfcReported (S : Schema) (m : WdMode) (n : DNode) : Bool :=
+  match m with
+  | .trim => !(n.flags.dflt || isDefault S n)
+  | .explicit => !n.flags.dflt || !S.config n.sid
+  | _ => true
+
+/-- RFC 6243 §3.4 / libyang's implicit-tagged mode: does the node carry `default="true"`? -/
+def rfcTagged (S : Schema) (m : WdMode) (n : DNode) : Bool :=
+  match m with
+  | .reportAllTagged => n.flags.dflt || isDefault S n
+  | .implicitTagged => n.flags.dflt
+  | _ => false
+
+/-- **`wd_modes` (terminal nodes)**: under every mode, with or without `LYD_PRINT_KEEPEMPTYCONT`, `lyd_node_should_print` reports
+exactly the RFC 6243 set and the printers tag exactly the RFC 6243 nodes.  (What "contains the schema default value" means for a
+leaf-list instance is `lyd_is_default`, see `is_default_iff_rfc6243_fails`.) -/
+theorem wd_modes_term (S : Schema) (m : WdMode) (keepEmpty : Bool) (s : Nat) (f : Flags) (ms : List Meta) (v : Bytes) :
+    let p := POpts.ofNat (m.bits + if keepEmpty then LYD_PRINT_KEEPEMPTYCONT else 0)
+    shouldPrint S p (.term s f ms v) = rfcReported S m (.term s f ms v) ∧
+    tagged S p (.term s f ms v) = rfcTagged S m (.term s f ms v) := by
+  cases m <;> cases keepEmpty <;>
+    simp [shouldPrint, tagged, rfcReported, rfcTagged, POpts.ofNat, WdMode.bits, hasBit, DNode.isTerm, DNode.flags, DNode.sid,
+      LYD_PRINT_WD_EXPLICIT, LYD_PRINT_WD_TRIM, LYD_PRINT_WD_ALL, LYD_PRINT_WD_ALL_TAG, LYD_PRINT_WD_IMPL_TAG,
+      LYD_PRINT_KEEPEMPTYCONT, Generated.LYD_PRINT_WD_MASK] <;>
+    cases f.dflt <;> simp
+
+/-- **`wd_modes` (inner nodes)**: list entries and presence containers are always reported; a non-presence container is reported
+iff something below it is, or `LYD_PRINT_KEEPEMPTYCONT` asks for empty containers — in trim mode judged by its children, in the
+other modes (where only a default-flagged container can be dropped) by all its descendants. -/
+theorem wd_modes_inner (S : Schema) (m : WdMode) (keepEmpty : Bool) (s : Nat) (f : Flags) (ms : List Meta) (ks : List DNode) :
+    let p := POpts.ofNat (m.bits + if keepEmpty then LYD_PRINT_KEEPEMPTYCONT else 0)
+    shouldPrint S p (.inner s f ms ks) =
+      if m = .trim then
+        !f.dflt && (!S.isNpCont s || keepEmpty || anyPrint S p ks)
+      else !(f.dflt && S.isKind s .container) || keepEmpty || anyDescPrint S p ks := by
+  cases m <;> cases keepEmpty <;>
+    simp [shouldPrint, POpts.ofNat, WdMode.bits, hasBit,
+      LYD_PRINT_WD_EXPLICIT, LYD_PRINT_WD_TRIM, LYD_PRINT_WD_ALL, LYD_PRINT_WD_ALL_TAG, LYD_PRINT_WD_IMPL_TAG,
+      LYD_PRINT_KEEPEMPTYCONT, Generated.LYD_PRINT_WD_MASK] <;>
+    cases f.dflt <;> cases S.isNpCont s <;> cases S.isKind s .container <;> simp
+
+/-- non-vacuity: an explicit leaf set to its default value is dropped by trim, kept by explicit, tagged by report-all-tagged -/
+example :
+    let S : Schema := { modName := "m", nodes := [{ depth := 0, kind := .leaf, name := "f", dflts := [[120]] }] }
+    let n : DNode := .term 0 {} [] [120]
+    (shouldPrint S (POpts.ofNat WdMode.trim.bits) n, shouldPrint S (POpts.ofNat WdMode.explicit.bits) n,
+      tagged S (POpts.ofNat WdMode.reportAllTagged.bits) n) = (false, true, true) := by decide
 
 end LyModel.Props.C07
